@@ -41,7 +41,7 @@ Qed.
 Definition wf_asg (q : Z * list Z) : Prop := length (snd q) = D.
 Definition wf_iview (v : iview) : Prop :=
   Forall wf_asg (v_assigned v) /\ length (v_allocated v) = D
-  /\ length (v_reserved v) = D /\ length (v_allocatable v) = D.
+  /\ length (v_reserved v) = D /\ length (v_allocatable v) = D /\ length (v_cap v) = D.
 Definition wf_cview (o : cview) : Prop :=
   Forall wf_iview (o_infos o) /\ length (o_visit o) = length node_ids.
 
@@ -53,17 +53,18 @@ Qed.
 
 Lemma dec_iview_enc v r : wf_iview v -> dec_iview (enc_iview v ++ r) = (v, r).
 Proof.
-  intros [Ha [H1 [H2 H3]]]. destruct v as [uid node av pe on te ma ga asg names al rs ab].
-  cbn [v_assigned v_allocated v_reserved v_allocatable] in *.
+  intros [Ha [H1 [H2 [H3 H4]]]]. destruct v as [uid node av pe on te ma ga asg names al rs ab pol cp].
+  cbn [v_assigned v_allocated v_reserved v_allocatable v_cap] in *.
   unfold enc_iview.
   cbn [v_uid v_node v_avail v_perr v_once v_term v_matchable v_gate v_assigned v_names
-       v_allocated v_reserved v_allocatable app].
+       v_allocated v_reserved v_allocatable v_policy v_cap app].
   unfold dec_iview.
   rewrite <- !app_assoc.
   rewrite (decode_seq_enc dec_assigned (fun q : Z * list Z => fst q :: snd q) wf_asg
              dec_assigned_enc asg _ Ha).
   rewrite take_list_enc.
   rewrite <- H1, take_n_app. rewrite H1, <- H2, take_n_app. rewrite H2, <- H3, take_n_app.
+  cbn [app tl hdZ]. rewrite H3, <- H4, take_n_app.
   rewrite !zb_bz. reflexivity.
 Qed.
 
@@ -111,7 +112,7 @@ Proof. reflexivity. Qed.
 
 Lemma wf_info_view i : wf_iview (info_view i).
 Proof.
-  unfold wf_iview. cbn [info_view v_assigned v_allocated v_reserved v_allocatable].
+  unfold wf_iview. cbn [info_view v_assigned v_allocated v_reserved v_allocatable v_cap].
   repeat split; try reflexivity.
   apply Forall_forall. intros q Hq. apply (proj1 (In_sort_by _ _ _)) in Hq.
   apply in_map_iff in Hq. destruct Hq as [p [<- _]]. reflexivity.
@@ -150,8 +151,8 @@ Qed.
 (* ---------- the model passes its own check ---------- *)
 Lemma prop_history_on_model inp :
   prop_history inp (run_history inp)
-  = first_nonzero (codes (dec_history inp) (flags_of (dec_history inp))
-                         (views_of (dec_history inp))).
+  = first_nonzero (codes (claims init_cache (dec_history inp)) (dec_history inp)
+                         (flags_of (dec_history inp)) [] (views_of (dec_history inp))).
 Proof.
   unfold prop_history, run_history. rewrite not_crashed. cbv zeta.
   rewrite <- (views_of_length (dec_history inp)).
@@ -189,9 +190,6 @@ Lemma getv_res_of_vals_out r k : ~ In k dims -> getv k (res_of_vals (vals r)) = 
 Proof.
   intros H. apply getv_nohask. rewrite hask_keys, keys_res_of_vals. apply memZ_false_In, H.
 Qed.
-
-Lemma eq_listZ_refl l : eq_listZ l l = true.
-Proof. induction l as [|x t IH]; cbn; [reflexivity|]. rewrite Z.eqb_refl. exact IH. Qed.
 
 Lemma dec_fits_fresh inp :
   let '(i, _, _) := dec_fits inp in has_assigned FRESH i = false.
